@@ -8,7 +8,9 @@ import (
 	"fmt"
 	"os"
 	"sort"
+	"strings"
 	"sync"
+	"sync/atomic"
 	"testing"
 	"time"
 
@@ -339,7 +341,7 @@ func TestVfC13Framing(t *testing.T) {
 // segment completes a frame, so a correct listener re-arms its idle timer with every query it decodes and serves all of
 // them - whatever the cuts are. A listener that ties the timer to socket reads or to empty buffers loses the tail.
 func TestVfC13SlowSegments(t *testing.T) {
-	st := vfkit.Stats("TestVfC13SlowSegments", "k in 4..7 queries on one tcp / gnet / tls connection (all three listeners driven together per case), idle_timeout 2 s, one segment every 300-700 ms for 2.1-4.9 s in total; every segment ends at a drawn offset relative to the next frame start (aligned, inside its 2-octet prefix, right after it, inside its body); oracle: k response frames, IDs and questions of the k queries, each exactly once; non-trivial = at least one segment ends inside a following frame and the connection outlives idle_timeout")
+	st := vfkit.Stats("TestVfC13SlowSegments", "k in 4..7 queries on one tcp / gnet / tls connection (all three listeners driven together per case), idle_timeout 2 s, one segment every 300-700 ms for 0.9-4.2 s in total; every segment ends at a drawn offset relative to the next frame start (aligned, inside its 2-octet prefix, right after it, inside its body); oracle: k response frames, IDs and questions of the k queries, each exactly once; non-trivial = at least one segment ends inside a following frame and the connection outlives idle_timeout")
 	defer vfkit.Flush()
 	block := NextIPBlock()
 	pip := block + "10"
@@ -545,6 +547,149 @@ func TestVfC13CounterAfterRefusals(t *testing.T) {
 		}
 		st.Case(vfkit.Fingerprint(listener, mc, k, seq), refused >= mc, []string{"listener=" + listener}, func() any {
 			return map[string]any{"listener": listener, "max_concurrent": mc, "k": k, "refused_in_burst": refused}
+		})
+	})
+}
+
+// TestVfC13LongLived: a connection is served the same way however old it is. Nothing that was armed when it was accepted
+// (a handshake time limit, a first-read time limit) may still apply to the queries and responses that follow: clients keep
+// stream connections for as long as the idle time-out allows, and an upstream may take seconds to answer.
+func TestVfC13LongLived(t *testing.T) {
+	st := vfkit.Stats("TestVfC13LongLived", "3-8 connections per case over the tcp / gnet / tls listeners (idle_timeout default 10 s), each following a drawn script of 2-4 rounds: 1-3 pipelined queries, all responses read, then a pause of 0.2 / 1.5 / 3.3 / 4.6 s (always below the idle time-out); some queries are answered by the upstream only after 3.4 s; oracle: every query of every round gets exactly one well-framed response with its ID, question and the upstream's answer, and the listener does not close the connection; non-trivial = a response is written more than 3 s after the connection was opened")
+	defer vfkit.Flush()
+	block := NextIPBlock()
+	var slow sync.Map
+	up, err := StartUpstream("udp", "up", block+"2", 0, nil, func(q *UpQuery) UpAction {
+		if q.Msg.Err != nil || len(q.Msg.Q) != 1 {
+			return UpAction{}
+		}
+		a := UpAction{Reply: EncodeMsg(KeyedAnswer(q.Msg, "c13l", 0, 60, 0))}
+		if _, ok := slow.Load(strings.ToLower(string(q.Msg.Q[0].Name[0]))); ok {
+			a.Delay = 3400 * time.Millisecond
+		}
+		return a
+	})
+	if err != nil {
+		t.Fatal(err)
+	}
+	defer up.Close()
+	pip := block + "10"
+	cfg := &Config{Servers: StdServers(pip, []string{"tcp", "gnet", "tls"}, ""), Upstreams: []UpstreamCfg{{Tag: "up", Addr: up.Addr()}}, Rules: []Rule{{Forward: "up"}}}
+	p, err := StartProxy(cfg.YAML(), nil, ProxyOpts{})
+	if err != nil {
+		t.Fatal(err)
+	}
+	defer p.Cleanup()
+	caseNo := 0
+	rapid.Check(t, func(t *rapid.T) {
+		caseNo++
+		type round struct {
+			k     int
+			slow  []bool
+			pause time.Duration
+		}
+		type plan struct {
+			listener string
+			rounds   []round
+		}
+		nConn := rapid.IntRange(3, 8).Draw(t, "connections")
+		plans := make([]plan, nConn)
+		for i := range plans {
+			pl := plan{listener: rapid.SampledFrom([]string{"tcp", "gnet", "tls", "tls"}).Draw(t, "listener")}
+			total := time.Duration(0)
+			for r, nr := 0, rapid.IntRange(2, 4).Draw(t, "rounds"); r < nr; r++ {
+				rd := round{k: rapid.IntRange(1, 3).Draw(t, "k")}
+				for q := 0; q < rd.k; q++ {
+					rd.slow = append(rd.slow, rapid.IntRange(0, 5).Draw(t, "slowUpstream") == 0)
+				}
+				rd.pause = time.Duration(rapid.SampledFrom([]int{200, 1500, 3300, 4600}).Draw(t, "pauseMs")) * time.Millisecond
+				if total+rd.pause > 9*time.Second {
+					rd.pause = 200 * time.Millisecond
+				}
+				total += rd.pause
+				pl.rounds = append(pl.rounds, rd)
+			}
+			plans[i] = pl
+		}
+		errs := make(chan string, nConn)
+		var lateWrites atomic.Int32
+		for pi, pl := range plans {
+			go func(pi int, pl plan) {
+				var tcfg *tls.Config
+				if pl.listener == "tls" {
+					tcfg = &tls.Config{InsecureSkipVerify: true}
+				}
+				c, err := DialStream("", fmt.Sprintf("%s:%d", pip, ListenerPorts[pl.listener]), tcfg, 3*time.Second)
+				if err != nil {
+					errs <- fmt.Sprintf("dial %s: %v", pl.listener, err)
+					return
+				}
+				defer c.Close()
+				opened := time.Now()
+				for ri, rd := range pl.rounds {
+					ids := map[uint16]vfkit.Name{}
+					var stream []byte
+					anySlow := false
+					for q := 0; q < rd.k; q++ {
+						label := fmt.Sprintf("l%dc%dr%dq%dx%d", caseNo, pi, ri, q, os.Getpid())
+						if rd.slow[q] {
+							slow.Store(label, true)
+							defer slow.Delete(label)
+							anySlow = true
+						}
+						name := vfkit.Name{[]byte(label), []byte("c13l"), []byte("test")}
+						id := uint16(caseNo*512 + pi*64 + ri*8 + q)
+						ids[id] = name
+						stream = append(stream, frame(Query(id, name, 1, 1, false))...)
+					}
+					age := time.Since(opened)
+					if _, err := c.C.Write(stream); err != nil {
+						errs <- fmt.Sprintf("%s: write of round %d failed on a connection opened %v ago: %v", pl.listener, ri, age.Round(time.Millisecond), err)
+						return
+					}
+					wait := 3 * time.Second
+					if anySlow {
+						wait = 8 * time.Second
+					}
+					frames, rest, closed := c.ReadFrames(rd.k, wait)
+					if time.Since(opened) > 3100*time.Millisecond {
+						lateWrites.Add(1)
+					}
+					if len(frames) != rd.k || len(rest) > 0 {
+						errs <- fmt.Sprintf("%s: round %d on a connection opened %v ago (idle_timeout 10 s, longest pause 4.6 s): %d response frames for %d queries, %d stray octets, connection closed by the listener: %v; plan %+v", pl.listener, ri, age.Round(time.Millisecond), len(frames), rd.k, len(rest), closed, pl)
+						return
+					}
+					seen := map[uint16]bool{}
+					for _, f := range frames {
+						n, ok := ids[f.Msg.ID]
+						_, tag, _, kok := ParseKeyed(f.Msg)
+						if !f.Msg.Clean() || !ok || seen[f.Msg.ID] || len(f.Msg.Q) != 1 || !f.Msg.Q[0].Name.EqualFold(n) || f.Msg.Rcode() != 0 || !kok || tag != "c13l" {
+							errs <- fmt.Sprintf("%s: round %d: response %s does not belong to exactly one of the queries of the round; plan %+v", pl.listener, ri, f.Msg.Msg.String(), pl)
+							return
+						}
+						seen[f.Msg.ID] = true
+					}
+					if ri+1 < len(pl.rounds) {
+						time.Sleep(rd.pause)
+					}
+				}
+				errs <- ""
+			}(pi, pl)
+		}
+		bad := ""
+		for range plans {
+			if e := <-errs; e != "" && bad == "" {
+				bad = e
+			}
+		}
+		if bad != "" {
+			t.Fatalf("%s\n%s", bad, tail(p.Stderr(), 800))
+		}
+		if cr := p.Crashed(); cr != "" {
+			t.Fatalf("proxy crashed: %s", cr)
+		}
+		st.Case(vfkit.Fingerprint(fmt.Sprint(plans)), lateWrites.Load() > 0, []string{fmt.Sprintf("late-rounds>0=%v", lateWrites.Load() > 0)}, func() any {
+			return map[string]any{"plans": fmt.Sprint(plans)}
 		})
 	})
 }
